@@ -23,6 +23,7 @@ func runC04(c *Ctx) {
 	c04Untagged(c)
 	c04CacheKey(c)
 	c04CompositeLoc(c)
+	c04KeyVerbatim(c)
 }
 
 func c04KeyLoc(c *Ctx) {
